@@ -149,7 +149,7 @@ func c02nTypes(name string) ([]uint16, bool) {
 //
 //verif:entry tier=quick,thorough
 //verif:expect nsec3-nxdomain-never-accepted-for-a-name-that-exists nsec3-nodata-never-accepted-for-a-present-type nsec3-nodata-at-a-zone-cut-only-for-ds nsec3-aggressive-verdict-is-true-of-the-zone nsec3-some-denial-accepted
-//verif:bound the zone of nseczone.go as an NSEC3 chain of 9 records (the empty non-terminal has its own record), hashes from a collision-free table; every subset of the chain; quick: 10 query names x types A, TXT, DS, thorough: all 19 names x A, TXT, NS, DS, CNAME, DNAME; no Opt-Out (VerifC02_NSEC3ZoneOptOut); exact-response verifiers and the aggressive classifier
+//verif:bound the zone of nseczone.go as an NSEC3 chain of 9 records (the empty non-terminal has its own record), hashes from a collision-free table; every subset of the chain; quick: 10 query names x types A, TXT, DS, thorough: all 19 names x A, TXT, DS, CNAME; no Opt-Out (VerifC02_NSEC3ZoneOptOut); exact-response verifiers and the aggressive classifier
 //verif:outside hash collisions and the SHA-1 computation; iterations/salt handling; mixed-parameter sets (refused in prepareNSEC3Set)
 func VerifC02_NSEC3ZoneSoundness() { c02nRun(false) }
 
@@ -175,7 +175,7 @@ func c02nRun(optOut bool) {
 	var qtype uint16
 	if thorough {
 		q = c02zQueries[vChoice("qname", len(c02zQueries))]
-		qtype = []uint16{dns.TypeA, dns.TypeTXT, dns.TypeNS, dns.TypeDS, dns.TypeCNAME, dns.TypeDNAME}[vChoice("qtype", 6)]
+		qtype = []uint16{dns.TypeA, dns.TypeTXT, dns.TypeDS, dns.TypeCNAME}[vChoice("qtype", 4)]
 	} else {
 		// quick: the ten names with a story (non-existent sibling, alias,
 		// empty non-terminal, wildcard matches, both zone cuts and what lies
